@@ -888,6 +888,20 @@ private:
       {
         try { c.listenerReady->set_value(false); } catch (...) {}
       }
+      if (c.t == CmdType::Connect || c.t == CmdType::Via)
+      {
+        // connect()/connectViaListener() already returned this session id to the
+        // application (queued after the process() above, before the queue closed).
+        // Report it closed, or the id would get neither a connect nor a close.
+        SessionId lostSid = (c.t == CmdType::Connect) ? c.c.sid : c.v.sid;
+        decltype(_cbs.onClose) closeCb;
+        { std::lock_guard<std::mutex> g(_cbMutex); closeCb = _cbs.onClose; }
+        if (closeCb)
+        {
+          closeCb(lostSid, TransportErrorInfo{TransportError::ShuttingDown,
+                                              "connect: transport shutting down"});
+        }
+      }
     }
     if (_epollFd >= 0)
     {
